@@ -374,6 +374,43 @@ theorem f10_counterexample_stale :
     ∧ QStatic (Gen.cfg false false) f10b = false := by
   refine ⟨⟨_, rfl, ?_⟩, ?_⟩ <;> decide +kernel
 
+/-! ### `mov` with run-time register ids (the SDK's multi-pair EPR keep: `set R4 0; mov R4 R3`)
+
+The pass knows nothing about non-Q registers. For `mov` it then emits the electron→carbon circuit on
+the operand registers, whatever they hold; for any other two-qubit gate it asserts (same code path as
+F10: `except KeyError: assert isinstance(instr, vanilla.MovInstruction)`). At operator level the
+emitted circuit is a transfer `reg0 → reg1` onto a |0⟩ target for ANY two distinct qubits (C07
+`mov_transfer`; confirmed by the state-vector oracle in both directions and by 480 NV-transpiled
+keep scenarios of the C10 harness), so the observation "NV-transpiled mov with run-time ids
+damages states" was F9 (nv `crot_y` published the X-axis matrix) and disappeared with its fix.
+`transpile_simulates_*` does not cover `mov` (published vanilla semantics is a SWAP, the NV
+circuits are a transfer: the states differ on the source qubit until it is freed). -/
+
+/-- for `mov`, whenever the pass lacks the value of one operand register it emits the
+electron→carbon template on `(reg0, reg1)` — independent of what the registers hold -/
+theorem mov_unknown_emits_ec (cfg : Cfg) (info : ClsInfo) (htag : info.tag = "mov")
+    (rv : List (Reg × Int)) (used : List Reg) (c : String) (ra rb : Reg)
+    (hun : rv.lookup ra = none ∨ rv.lookup rb = none) :
+    expandGate2 cfg info rv used ⟨c, [.reg ra, .reg rb]⟩
+      = useTemplate cfg ("mov_ec" ++ sfx cfg) ⟨c, [.reg ra, .reg rb]⟩ ra rb ra := by
+  unfold expandGate2
+  simp only
+  rcases hun with h | h
+  · rw [h]; simp [htag]
+  · rw [h]
+    cases rv.lookup ra <;> simp [htag]
+
+/-- F10, non-Q operand registers: `set R0 0; set R1 1; cnot R0 R1` runs on the controller, the pass
+raises AssertionError (outside `QStatic`: two-qubit gates must name Q registers) -/
+def f10c : List Instr := [
+  ⟨"core.SetInstruction", [rreg 0, .imm 0]⟩,
+  ⟨"core.SetInstruction", [rreg 1, .imm 1]⟩,
+  ⟨"vanilla.CnotInstruction", [rreg 0, rreg 1]⟩]
+
+theorem f10_nonQ_register_asserts :
+    transpile (Gen.cfg false false) f10c = .error .assertion ∧ QStatic (Gen.cfg false false) f10c = false := by
+  decide +kernel
+
 /-- F26 (fixed in /repo): `beq R0 R1 3; cnot Q0 Q1 (carbons 1, 2); set R5 7` with debug markers -/
 def f26 : List Instr := [
   ⟨"core.SetInstruction", [qreg 0, .imm 1]⟩,
